@@ -11,6 +11,7 @@ Inductive invariant proof over the SpectralInformation API:
  R5 split/merge : band mux folds the WHOLE list, demux selects whole channels by the in-band test (shared with C07-R2)
  R6 published   : the figures published after adding transmitter / add-drop noise receive one common added-noise term
                   computed from the RAW figures, so the identity survives update_snr (shared with C13-R2)
+ Rm memo          : every memoisation construct in the functions behind this property is keyed by everything it reads.
 """
 import ast
 
@@ -380,7 +381,12 @@ def r6_published(ctx):
     ctx.need('R6.published-figures', 8)
 
 
-RULES = [('R6.published-figures', r6_published), ('R5.split-merge', r5_split_merge), ('R1.ownership', r1_ownership), ('R2.base', r2_base), ('R3.step', r3_step), ('R4.reported', r4_reported)]
+
+from ..memo import rule_for as _memo_rule
+
+RULES_MEMO = ('Rm.memo', _memo_rule('C01', 'a stale share or GSNR would be reported after the spectrum was updated'))
+
+RULES = [('R6.published-figures', r6_published), ('R5.split-merge', r5_split_merge), ('R1.ownership', r1_ownership), ('R2.base', r2_base), ('R3.step', r3_step), ('R4.reported', r4_reported), RULES_MEMO]
 
 
 def proof_keys(ctx):
